@@ -30,8 +30,10 @@ SPEC = {
                     "end-to-end theorems (RTS/CTS and BAM): any number of devices per node, any acting device index on either side, the other "
                     "devices idle (Lead); RTS/CTS (C10_end_to_end_any_order): ANY order of polls of the two nodes, every poll of the sender "
                     "before its own timeout is due (< 50 ms after arming at the RTS, < 100 ms after arming at a CTS; idle polls add up), no "
-                    "condition on the receiver's delays, at least 2*packets+2 effective polls; the _partial theorems: the two nodes poll "
-                    "alternately (BAM: >= 51 ms between the sender's polls); an untimely schedule (sender aborts) is not composed end to end",
+                    "condition on the receiver's delays, at least 2*packets+2 effective polls; BAM (C10_end_to_end_bam_any_order): ANY order "
+                    "of polls, no poll of the sender at the very millisecond its pacing timer runs out or 2^31 ms late, bamGap <= 100000, "
+                    "the listener takes up to 20 queued frames per poll, completion once it has taken all packets+1 frames; the _partial "
+                    "theorems: the two nodes poll alternately; an untimely RTS/CTS schedule (sender aborts) is not composed end to end",
                     "free receive slots carry TPRequireCTS = 0 (constructor / FreeMessage invariant; hypothesis of the BAM end-to-end theorem)"],
 }
 MANIFEST = {
@@ -45,7 +47,9 @@ MANIFEST = {
             "channel complete the transfer with exactly one intact delivery, for RTS/CTS and for BAM, under every poll schedule "
             "within the timeouts (any acting device of nodes with any number of otherwise idle devices; RTS/CTS under ANY order of polls "
             "of the two nodes with the sender's timeouts respected - C10_end_to_end_any_order, bound 2*packets+2 effective polls; "
-            "BAM and the round-counting form for strictly alternating polls: theorems named _partial). Receiver safety over EVERY history (C10_receiver_safe_all_histories, an inductive invariant against the reference "
+            "BAM under ANY order of polls as a simulation by counters of the schedule - C10_end_to_end_bam_any_order: the listener never "
+            "transmits, no handler call before all frames are taken, then exactly one intact delivery; the round-counting forms for "
+            "strictly alternating polls: theorems named _partial). Receiver safety over EVERY history (C10_receiver_safe_all_histories, an inductive invariant against the reference "
             "bookkeeping Spec.tpTrack): every handler call caused by a transfer has len <= 223, exactly len bytes, all from the in-order "
             "packets of one session of its source/destination/PGN. Correspondence: the real tNMEA2000 (both timer builds) against a scripted reference peer in both "
             "roles (every length, grants 1..255, holds, late answers, aborts, silence, every single dropped/duplicated/reordered "
